@@ -127,3 +127,16 @@ package main
 //@   at loop 2 end: assert in(key, merged) && (forall id reportID :: in(id, d[wk][pk][chartName][bucket]) ==> in(id, merged[key]))
 //@   loop 4: invariant chart != nil
 //@   modifies heap
+
+// C13, deterministic output: a chart's data is sorted with these comparators after
+// it was collected from a map, so the order of the output is a function of the
+// keys only if the comparator never ties two different keys.
+//@ contract compareLexically
+//@   ensures result == 0 <==> x == y
+//@   ensures result == -1 || result == 0 || result == 1
+//@   modifies nothing
+
+//@ contract compareSemver
+//@   ensures result == 0 ==> x == y
+//@   ensures semver.Compare(x, y) != 0 ==> result == semver.Compare(x, y)
+//@   modifies nothing
